@@ -51,6 +51,8 @@ type Obligation struct {
 	Model  string
 	Bounded bool
 	Cached  bool // answer taken from the query cache (identical query text answered earlier)
+	NoAssume bool  // the goal was not added to the hypothesis of the obligations after it
+	Group   string // obligations asserted back to back under one hypothesis (e.g. all join invariants at one join): tried as one conjunction first
 }
 
 func NewVC(unit string) *VC {
